@@ -599,6 +599,23 @@ lblOuter:
 		t += i
 	}
 	return t, x`),
+		// a narrow counter that wraps inside the loop (step within the small-literal range, so the
+		// literal-replacement refactoring does not apply to it)
+		mk("narrowiv", `	t, c := 0, 0
+	for i := int8(0); i >= 0 && c < 12; i += 16 {
+		c++
+		t += int(i)
+	}
+	return t + a, x`),
+		mk("triplenest", `	t := 0
+	for i := 0; i < 3; i++ {
+		for k := 0; k < 2; k++ {
+			for m := i; m < 3; m++ {
+				t += m + a
+			}
+		}
+	}
+	return t, x`),
 		mk("dupexpr", `	t := a * b
 	c := (t + 1) * (t + 1)
 	d := (t - 2) * (t - 2)
